@@ -4,10 +4,13 @@ package pages
 
 // Contracts for gocv (comment-only; see /verif/DESIGN.md).  No executable code.
 
+// the reported page count is at most the number of page leaves found (the /Count of the file is only a claim; callers
+// index pages and size allocations by the result)
 //@ func (*PageTree) Count results (n, err)
 //@   property C10, C02
-//@   flags readonly
+//@   flags nosafety
 //@   ensures nonneg: !err ==> n >= 0
+//@   ensures never_more_than_the_leaves: !err ==> n <= len(t.pages)
 
 // The page tree is walked recursively along /Kids, which a corrupt file can close into a cycle.
 //@ func (*PageTree) traversePageNode results (err)
